@@ -328,6 +328,11 @@ class Malformed(Base):
             subs = [(i, ch) for i in range(len(text)) for ch in alphabet if text[i] != ch]
             for i, ch in (rng.sample(subs, 100) if tier == "quick" else subs):
                 add(text[:i] + ch + text[i + 1:])
+            # raw control characters: white space between tokens (tab, LF, CR) is fine, anywhere inside a string it is
+            # malformed JSON (RFC 8259); the reference parser decides which
+            ins = [(i, ch) for i in range(len(text) + 1) for ch in "\t\n\r\x00\x0c\x1f\x7f"]
+            for i, ch in (rng.sample(ins, 60) if tier == "quick" else ins):
+                add(text[:i] + ch + text[i:])
         for t in ["{", "}", "[", "nul", "tru", "'a'", "{'a': 1}", "{\"a\" 1}", "[1,]", "{\"a\":1,}", "01", "1.", ".5", "+1", "0x10", "\"\\x\"", "\"unterminated",
                   "{\"jsonrpc\": \"2.0\", \"method\": \"ok\", \"id\": 1} trailing", "[1 2]", "\ufeff{}", "{\"method\": \"ok\", \"id\": 1}}",
                   " ", "\n", "\r\n", "\t", "  \n\t ", "\x0b", "\x00"]:
